@@ -130,8 +130,8 @@ def handle(req, state):
                 cex = req["replay"]
                 try:
                     out = fn(**cex)
-                    if out is False:
-                        return {"status": "reproduced", "detail": "harness assertion False on the unpatched code with concrete inputs"}
+                    if not out:  # the postcondition is the truth value of the result (numpy.False_ included)
+                        return {"status": "reproduced", "detail": f"harness assertion {out!r} on the unpatched code with concrete inputs"}
                     return {"status": "not_reproduced", "detail": f"returned {out!r}"}
                 except Exception as e:  # noqa
                     tb = traceback.format_exc()[-800:]
